@@ -655,6 +655,14 @@ def run(ctx):
                 ctx.violation("pass.accepts", f"{name} raised {type(e).__name__}: {str(e)[:300]} on a circuit whose wire labels are not 0..n-1",
                               case=desc, mech="pm-nonrange-wire-labels")
                 continue
+            if (not kind and type(e).__name__ == "MatrixUndefinedError" and name in ("single_qubit_fusion", "compile")
+                    and any(len(o.wires) == 1 and not o.has_matrix for o in tape.operations)):
+                # single_qubit_fusion asks every one-wire operation for ZYZ angles through its matrix; markers have none
+                ctx.case(fp, nontrivial=True, cls=name, sample=desc)
+                ctx.violation("pass.accepts", f"{name} raised MatrixUndefinedError on a circuit containing a one-wire operation without a matrix "
+                                              f"({[o.name for o in tape.operations if len(o.wires) == 1 and not o.has_matrix][:3]})", case=desc,
+                              mech="fusion-one-wire-op-without-matrix")
+                continue
             if kind:
                 ctx.reject(f"{name}:{kind}")
                 ctx.case(fp, nontrivial=False, cls=name)
